@@ -27,6 +27,7 @@ def check(run):
     types(run, p)
     isolang(run, p)
     precedence(run, p)
+    declared(run, p)
     from .common import nocache_rule
     nocache_rule(run, 'C16-NOCACHE', p, ['tdda.serial.reader', 'tdda.serial.csvw', 'tdda.serial.pandasio', 'tdda.serial.base'],
                  'metadata is read from the file each time it is needed: no memoising decorator and no class-level container used as a cache '
@@ -234,3 +235,38 @@ def precedence(run, p):
                                                             'without testing that the dialect lacks it: an explicit value is overwritten'),
                    fn=f, node=s)
     run.floor('C16-EXPLICIT', n, 2)
+
+
+def declared(run, p):
+    run.rule('C16-DECLARED', 'a column whose type the metadata declares keeps it: in csv2pandas every poss_upgrade_to_int call is reached '
+                             'only for columns outside the declared dtype map, and that map is what read_csv was given - its '
+                             'definition does not depend on any on/off option of csv2pandas (data and control dependence)')
+    f = p.fn('tdda.serial.reader.csv2pandas')
+    gm = GuardMap(f.node)
+    flags = {a for a, d in f.defaults.items() if isinstance(d, ast.Constant) and isinstance(d.value, bool)}
+    n = 0
+    for x in p.own_nodes(f):
+        if not (isinstance(x, ast.Call) and getattr(x.func, 'id', '') == 'poss_upgrade_to_int'):
+            continue
+        n += 1
+        col = norm(x.args[1]) if len(x.args) > 1 else None
+        prot = None
+        for g in gm.chain(x) or ():
+            if g.kind != 'if':
+                continue
+            for c in ast.walk(g.test):
+                if isinstance(c, ast.Compare) and len(c.ops) == 1 and isinstance(c.ops[0], (ast.In, ast.NotIn)) and norm(c.left) == col:
+                    prot = c.comparators[0]
+        key = '%s::%s::poss_upgrade_to_int' % (f.rel, f.short)
+        if prot is None:
+            run.ob('C16-DECLARED', key, False, 'possible-int upgrading is applied without excluding the declared columns', fn=f, node=x)
+            continue
+        src = names_in(prot) - {col}
+        # from the protection set back to what read_csv was given (kw), not beyond: how kw itself was found is another matter
+        clo = dep_closure(f.node, src, control=True, stop=('kw', 'md_kw', 'md')) | src
+        bad = sorted((clo & flags) - {'upgrade_possible_ints'})
+        run.ob('C16-DECLARED', key, not bad and bool(clo & {'kw', 'md_kw', 'md'}),
+               'declared columns are excluded through %s, which %s' % (norm(prot)[:40], 'derives from the read_csv arguments only' if not bad else
+                                                                       'also depends on the option(s) %s: with that option off nothing is protected' % bad),
+               fn=f, node=x)
+    run.floor('C16-DECLARED', n, 1)
